@@ -144,6 +144,14 @@ pub fn era(spec: SpecId) -> Era {
         CANCUN => Era::Cancun,
         PRAGUE => Era::Prague,
         OSAKA | LATEST => Era::Osaka,
+        #[cfg(feature = "optimism")]
+        BEDROCK | REGOLITH => Era::Merge,
+        #[cfg(feature = "optimism")]
+        CANYON => Era::Shanghai,
+        #[cfg(feature = "optimism")]
+        ECOTONE | FJORD | GRANITE | HOLOCENE => Era::Cancun,
+        #[cfg(feature = "optimism")]
+        ISTHMUS => Era::Prague,
         #[allow(unreachable_patterns)]
         _ => Era::Osaka,
     }
